@@ -1,7 +1,7 @@
 SPECIFICATION Spec
 CONSTANTS
   Templates <- AllTemplates
-  FaultKinds = {"null", "cbfail"}
+  FaultKinds = {"null", "cbfail", "cbfail_count"}
   Schedules = {"all", "one", "s3i"}
   Declines = {"none", "first", "second", "all"}
 INVARIANTS TypeOK Replay
